@@ -73,6 +73,7 @@ import (
 	"github.com/megaease/easegress/pkg/object/pipeline"
 	"github.com/megaease/easegress/pkg/object/trafficcontroller"
 	"github.com/megaease/easegress/pkg/protocols/httpprot/httpstat"
+	"github.com/megaease/easegress/pkg/protocols/mqttprot"
 	"github.com/megaease/easegress/pkg/supervisor"
 	"verif/simkit/sim"
 	"verif/simkit/simnet"
@@ -113,6 +114,7 @@ type c11MQClient struct {
 // CONNECT / SUBSCRIBE / PUBLISH / PING at scheduler-chosen instants.
 type c11MQSc struct {
 	InitialV int           `json:"initial_v"` // version the MQTTProxy exists with before the run (-1: absent)
+	PubV     int           `json:"pub_v"`     // version the Publish pipeline "mqpub" exists with before the run (-1: absent)
 	AuthHold int           `json:"auth_hold"` // gates the Connect pipeline of the broker parks at (keeps a client inside its handshake)
 	Clients  []c11MQClient `json:"clients"`
 }
@@ -121,9 +123,27 @@ const c11NMQV = 6
 
 func c11MQText(v int) string {
 	m := c11M{"kind": "MQTTProxy", "name": "mq", "port": 1883, "topicCacheSize": 100 + v%3, "maxAllowedConnection": []int{0, 5, 100}[v%3]}
+	rules := []c11M{}
 	if v%2 == 1 {
-		m["rules"] = []c11M{{"when": c11M{"packetType": "Connect"}, "pipeline": "mqauth"}}
+		rules = append(rules, c11M{"when": c11M{"packetType": "Connect"}, "pipeline": "mqauth"})
 	}
+	if c11MQHasPublishRule(v) {
+		rules = append(rules, c11M{"when": c11M{"packetType": "Publish"}, "pipeline": "mqpub"})
+	}
+	if len(rules) > 0 {
+		m["rules"] = rules
+	}
+	b, _ := json.Marshal(m)
+	return string(b)
+}
+
+// versions 2.. of the MQTTProxy route PUBLISH packets through pipeline "mqpub"
+func c11MQHasPublishRule(v int) bool { return v >= 2 }
+
+// c11MQPubText: the Publish pipeline of the MQTTProxy, its only filter reports
+// the version as generation marker of every packet it handles.
+func c11MQPubText(v int) string {
+	m := c11M{"name": "mqpub", "kind": "Pipeline", "filters": []c11M{{"name": "mark", "kind": "C11Park", "gen": v, "role": "mq", "tag": "mqpub"}}}
 	b, _ := json.Marshal(m)
 	return string(b)
 }
@@ -137,7 +157,31 @@ func c11GenMQ(rng *sim.Rand, sc *c11TCSc) {
 	for len(sc.Updaters) < 4 {
 		sc.Updaters = append(sc.Updaters, c11TCUpdater{})
 	}
+	// the Publish pipeline of the MQTTProxy and its updates (same updater: one name, one owner)
+	pubExists, pubV := rng.Bool(0.8), 0
+	if pubExists {
+		mq.PubV = 0
+	} else {
+		mq.PubV = -1
+	}
+	pFocus := rng.Bool(0.5) // mostly pipeline updates, the MQTTProxy itself stays
 	for i, n := 0, rng.Range(1, 5); i < n; i++ {
+		if rng.Bool(0.45) || (pFocus && rng.Bool(0.8)) {
+			pubV++
+			op := c11TCOp{Name: "mqpub", GapUs: int64(rng.Pick(0, 1, 10, 100, 1000, 5000)), V: pubV}
+			switch x := rng.Intn(10); {
+			case !pubExists:
+				op.Op, pubExists = rng.PickStr("create", "apply"), true
+			case x < 2:
+				op.Op, pubExists = "delete", false
+			case x < 6:
+				op.Op = "update"
+			default:
+				op.Op = "apply"
+			}
+			sc.Updaters[3].Ops = append(sc.Updaters[3].Ops, op)
+			continue
+		}
 		op := c11TCOp{Name: "mq", GapUs: int64(rng.Pick(0, 0, 1, 10, 100, 1000, 5000)), V: rng.Intn(c11NMQV)}
 		switch x := rng.Intn(10); {
 		case exists && x < 3:
@@ -157,6 +201,10 @@ func c11GenMQ(rng *sim.Rand, sc *c11TCSc) {
 		for i, n := 0, rng.Range(2, 8); i < n; i++ {
 			st := c11MQStep{GapUs: int64(rng.Pick(0, 0, 1, 10, 100, 1000, 3000))}
 			st.Op = rng.PickStr("connect", "connect", "sub", "pub", "pub", "ping", "disc")
+			if pFocus {
+				st.Op = rng.PickStr("pub", "pub", "pub", "pub", "ping", "sub", "connect")
+				st.GapUs = int64(rng.Pick(0, 1, 10, 100, 1000, 3000, 5000))
+			}
 			if i == 0 {
 				st.Op = "connect"
 			}
@@ -177,7 +225,7 @@ type c11TCSc struct {
 
 const c11NGateV = 4
 
-var c11Owner = map[string]int{"pa": 0, "g": 0, "pb": 1, "pc": 1, "g2": 1, "o/pa": 2, "o/pb": 2, "o/*": 2, "tc": 2, "mq": 3}
+var c11Owner = map[string]int{"pa": 0, "g": 0, "pb": 1, "pc": 1, "g2": 1, "o/pa": 2, "o/pb": 2, "o/*": 2, "tc": 2, "mq": 3, "mqpub": 3}
 
 // c11OtherNS: a second namespace with pipelines of the SAME names as the ones
 // requests are routed to; whatever happens there (create / apply / update /
@@ -436,7 +484,7 @@ func c11ExecTC(r *sim.Run, sc *c11TCSc) {
 	if nreq == 0 || sc.GateV < 0 || sc.GateV >= c11NGateV || len(sc.Updaters) > 4 {
 		return
 	}
-	if sc.MQ != nil && (sc.MQ.InitialV < -1 || sc.MQ.InitialV >= c11NMQV || len(sc.MQ.Clients) > 4) {
+	if sc.MQ != nil && (sc.MQ.InitialV < -1 || sc.MQ.InitialV >= c11NMQV || len(sc.MQ.Clients) > 4 || sc.MQ.PubV < -1 || sc.MQ.PubV > 1000) {
 		return
 	}
 	pipeNames := map[string]bool{"pa": true, "pb": true, "pc": true}
@@ -454,6 +502,9 @@ func c11ExecTC(r *sim.Run, sc *c11TCSc) {
 			}
 			isGate := op.Name == "g" || op.Name == "g2" || op.Name == "mq"
 			if op.Name == "mq" && (sc.MQ == nil || op.V >= c11NMQV) {
+				return
+			}
+			if op.Name == "mqpub" && sc.MQ == nil {
 				return
 			}
 			switch op.Op {
@@ -626,7 +677,7 @@ func c11ExecTC(r *sim.Run, sc *c11TCSc) {
 	const ns = "default"
 	var runtimes []*runtime
 	ref := map[string]*c11RefObj{}
-	for _, n := range []string{"pa", "pb", "pc", "g", "g2", "o/pa", "o/pb", "mq"} {
+	for _, n := range []string{"pa", "pb", "pc", "g", "g2", "o/pa", "o/pb", "mq", "mqpub"} {
 		ref[n] = &c11RefObj{hist: []c11RefState{{}}}
 	}
 	lastEnt := map[string]*supervisor.ObjectEntity{}
@@ -692,6 +743,11 @@ func c11ExecTC(r *sim.Run, sc *c11TCSc) {
 	// the neighbour of another kind: MQTTProxy "mq" on the simulated network
 	type touch struct{ start, end uint64 }
 	var mqTouches []*touch // every call on mq that may close / restart its broker
+	type mqSeenAt struct {
+		gen int
+		at  uint64
+	}
+	mqPubSeen := map[string][]mqSeenAt{} // payload of a PUBLISH -> generations of pipeline mqpub that handled it
 	mqUntouched := func(t0, t1 uint64) bool {
 		for _, t := range mqTouches {
 			if t.start <= t1 && (t.end == 0 || t.end >= t0) {
@@ -724,6 +780,30 @@ func c11ExecTC(r *sim.Run, sc *c11TCSc) {
 			r.Probe("c11.nb.auth_pipeline_not_created")
 			cleanup()
 			return
+		}
+		if v := sc.MQ.PubV; v >= 0 {
+			text := c11MQPubText(v)
+			psp := newSpec(text)
+			if psp == nil {
+				cleanup()
+				return
+			}
+			ent, err := tc.CreatePipelineForSpec(ns, psp)
+			if err != nil {
+				r.Probe("c11.nb.publish_pipeline_not_created")
+				cleanup()
+				return
+			}
+			ref["mqpub"].hist[0] = c11RefState{exists: true, v: v}
+			lastEnt["mqpub"], lastText["mqpub"] = ent, text
+		}
+		hooks.mqSeen = func(tag string, gen int, req *mqttprot.Request) {
+			if tag != "mqpub" || req.PacketType() != mqttprot.PublishType {
+				return
+			}
+			if pub := req.PublishPacket(); pub != nil {
+				mqPubSeen[string(pub.Payload)] = append(mqPubSeen[string(pub.Payload)], mqSeenAt{gen: gen, at: r.Seq()})
+			}
 		}
 		if v := sc.MQ.InitialV; v >= 0 {
 			text := c11MQText(v)
@@ -867,6 +947,8 @@ func c11ExecTC(r *sim.Run, sc *c11TCSc) {
 					text = c11GateText("g2", 10081, op.V)
 				case op.Name == "mq":
 					text = c11MQText(op.V)
+				case op.Name == "mqpub":
+					text = c11MQPubText(op.V)
 				default:
 					text = c11TCPipeTextTag(objName, tag, op.V)
 				}
@@ -900,7 +982,10 @@ func c11ExecTC(r *sim.Run, sc *c11TCSc) {
 						wantErr = true
 					}
 				}
-				if !isGate && cur.exists && next.exists && changed0(cur, next) && c11TCFutKind(cur.v) != c11TCFutKind(next.v) {
+				if op.Name == "mqpub" && changed0(cur, next) {
+					r.Probe("c11.nb.publish_pipeline_changed/" + op.Op)
+				}
+				if !isGate && op.Name != "mqpub" && cur.exists && next.exists && changed0(cur, next) && c11TCFutKind(cur.v) != c11TCFutKind(next.v) {
 					kindChanged[op.Name] = fmt.Sprintf("%s(v%d)->%s(v%d)", c11TCFutKind(cur.v), cur.v, c11TCFutKind(next.v), next.v)
 					r.Probe("c11.tc.update_changes_kind_of_named_filter/to-" + c11TCFutKind(next.v))
 				}
@@ -1202,6 +1287,7 @@ func c11ExecTC(r *sim.Run, sc *c11TCSc) {
 				// right after a close is C16's business (known finding
 				// C16.reconnect.killed-by-own-delete-event), not this property's
 				cid, nconn := fmt.Sprintf("m%d", ci), 0
+				npub := 0 // PUBLISH packets acknowledged on the current connection
 				var conn net.Conn
 				var t0 uint64 // stamp taken before the dial of the current connection
 				mid := uint16(0)
@@ -1286,6 +1372,7 @@ func c11ExecTC(r *sim.Run, sc *c11TCSc) {
 					case "connect":
 						drop()
 						nconn++
+						npub = 0
 						cid = fmt.Sprintf("m%d-%d", ci, nconn)
 						t0 = r.Seq()
 						existed := ref["mq"].cur().exists
@@ -1338,7 +1425,9 @@ func c11ExecTC(r *sim.Run, sc *c11TCSc) {
 					case "pub":
 						mid++
 						pp := packets.NewControlPacket(packets.Publish).(*packets.PublishPacket)
-						pp.MessageID, pp.TopicName, pp.Qos, pp.Payload = mid, "t/"+cid, 1, []byte("x")
+						payload := fmt.Sprintf("%s#%d", cid, mid)
+						pp.MessageID, pp.TopicName, pp.Qos, pp.Payload = mid, "t/"+cid, 1, []byte(payload)
+						tSend := r.Seq()
 						err := pp.Write(conn)
 						if err == nil {
 							_, err = expect(packets.Puback)
@@ -1350,6 +1439,41 @@ func c11ExecTC(r *sim.Run, sc *c11TCSc) {
 							continue
 						}
 						r.Probe("c11.nb.mqtt_published")
+						npub++
+						// which generation of the Publish pipeline handled the packet: judged when
+						// the MQTTProxy was untouched during this connection and routes PUBLISH to mqpub
+						if mst := ref["mq"].cur(); mst.exists && c11MQHasPublishRule(mst.v) && mqUntouched(t0, r.Seq()) {
+							seen := mqPubSeen[payload]
+							tH := r.Seq()
+							if len(seen) > 0 {
+								tH = seen[0].at
+							}
+							vis := ref["mqpub"].visible(tSend, tH)
+							okGen, mayAbsent, allAbsent := false, false, true
+							for _, vs := range vis {
+								if vs.exists {
+									allAbsent = false
+									okGen = okGen || (len(seen) == 1 && seen[0].gen == vs.v)
+								} else {
+									mayAbsent = true
+								}
+							}
+							if len(ref["mqpub"].hist) > 1 && npub > 1 {
+								r.Probe("c11.nb.publish_on_connection_that_published_before_pipeline_update")
+							}
+							switch {
+							case len(seen) == 0 && (mayAbsent || allAbsent):
+								// no pipeline of that name: the packet is handled without one
+							case okGen:
+								r.Probe("c11.nb.publish_handled_by_current_pipeline_generation")
+							default:
+								fail("C11.neighbour.mqtt-stale-pipeline-generation", "MQTT client %s (connection begun at stamp %d, %d PUBLISH packets so far) sent PUBLISH %q at stamp %d; MQTTProxy mq (version %d, untouched during this connection) routes PUBLISH to pipeline mqpub; "+
+									"the packet was handled by generation(s) %+v of mqpub, possible states of mqpub between the send and the handling: %+v (history %+v)\n"+
+									"once an update of the pipeline has been applied, a packet sent afterwards must see the new generation, also on a connection that existed before",
+									cid, t0, npub, payload, tSend, mst.v, seen, vis, ref["mqpub"].hist)
+								return
+							}
+						}
 					case "ping":
 						err := packets.NewControlPacket(packets.Pingreq).Write(conn)
 						if err == nil {
@@ -1386,7 +1510,10 @@ func c11ExecTC(r *sim.Run, sc *c11TCSc) {
 	r.WaitTasks()
 	if !r.Violated() && !r.Aborted() {
 		// final state: every pipeline is there / gone as the reference says, in both namespaces
-		for _, n := range []string{"pa", "pb", "pc", "o/pa", "o/pb"} {
+		for _, n := range []string{"pa", "pb", "pc", "o/pa", "o/pb", "mqpub"} {
+			if n == "mqpub" && sc.MQ == nil {
+				continue
+			}
 			qns, qn := ns, n
 			if strings.HasPrefix(n, "o/") {
 				qns, qn = c11OtherNS, strings.TrimPrefix(n, "o/")
